@@ -14,5 +14,7 @@ if [ -x "$VERIF_DIR/harness/$id/prebuild.sh" ]; then
   mapfile -t ov_args < <("$VERIF_DIR/harness/$id/prebuild.sh" "$B")
 fi
 python3 "$VERIF_DIR/scripts/mkoverlay.py" "${ov_args[@]}" > "$B/overlay.json"
-( cd "$VERIF_REPO" && go build -modfile="$B/go.mod" -overlay="$B/overlay.json" -tags verif "$@" -o "$B/bin/$id" "./verifharness/$id" ) 1>&2
+target="./verifharness/$id"
+if [ -f "$VERIF_DIR/harness/$id/target" ]; then target=$(cat "$VERIF_DIR/harness/$id/target"); fi
+( cd "$VERIF_REPO" && go build -modfile="$B/go.mod" -overlay="$B/overlay.json" -tags verif "$@" -o "$B/bin/$id" "$target" ) 1>&2
 echo "$B/bin/$id"
